@@ -19,7 +19,7 @@ func init() {
 				"(target) a MoveStake is accepted only when Candidates().Exists(data.ToPubKey) holds on every accepting path (found and repaired) and the stored move target is that key's id; (lock) UnbondV3's effects are dominated by `GetLockStakeUntilBlock(sender) > currentBlock ⇒ reject`. " +
 				"NOT decided: the numeric period values per chain id, behaviour when the move target is deleted before maturity (C07 known finding).",
 			Assumptions: stdAssumptions,
-			Rules:       []string{"C16.due", "C16.release", "C16.target", "C16.lock"},
+			Rules:       []string{"C16.due", "C16.release", "C16.target", "C16.lock", "C16.height"},
 		},
 		Run: runC16,
 	})
@@ -51,6 +51,7 @@ func isBlockPlusPeriod(v ssa.Value, period string) (bool, string) {
 }
 
 func runC16(c *core.Ctx) {
+	defer checkHeightPublished(c, "C16.height")
 	live := map[*ssa.Function]*core.Handler{}
 	if hs, err := c.Live(); err == nil {
 		for _, h := range hs {
@@ -304,4 +305,93 @@ func checkHeightArgs(c *core.Ctx, rule string) {
 			}
 		}
 	}
+}
+
+// checkHeightPublished — C16.height. Code that runs under EndBlock learns the block number from
+// blockchain.Height() (updateValidators → DeleteCandidate(height, …) freezes the stakes of a
+// removed candidate at height + unbond period). Height() reads blockchain.height, which EndBlock
+// itself sets to the block it is ending. Decided: in EndBlock the store of the request's height
+// into blockchain.height dominates every call that can reach a read of that field; otherwise the
+// callee sees the previous block's number and the funds mature a block early.
+func checkHeightPublished(c *core.Ctx, rule string) {
+	bt := c.Named("coreV2/minter", "Blockchain")
+	if bt == nil {
+		c.Unk(rule, "minter.Blockchain", token.NoPos, "type not found")
+		return
+	}
+	end := c.Method(bt, "EndBlock")
+	if end == nil {
+		c.Unk(rule, "EndBlock", token.NoPos, "Blockchain.EndBlock not found")
+		return
+	}
+	isHeightAddr := func(v ssa.Value) bool {
+		fa, ok := v.(*ssa.FieldAddr)
+		if !ok || fieldNameOf(fa) != "height" {
+			return false
+		}
+		n := namedOf(fa.X.Type())
+		return n != nil && n.Obj() == bt.Obj()
+	}
+	// readers of blockchain.height
+	readers := map[*ssa.Function]bool{}
+	for _, fn := range c.AllFns {
+		if fn.Blocks == nil || !c.InRepo(fn) {
+			continue
+		}
+		for _, s := range core.Sites(fn) {
+			if strings.HasPrefix(core.CalleeName(s.Common), "sync/atomic.Load") && len(s.Common.Args) == 1 && isHeightAddr(s.Common.Args[0]) {
+				readers[fn] = true
+			}
+		}
+		for _, b := range fn.Blocks {
+			for _, in := range b.Instrs {
+				if ld, ok := in.(*ssa.UnOp); ok && ld.Op == token.MUL && isHeightAddr(ld.X) {
+					readers[fn] = true
+				}
+			}
+		}
+	}
+	// the publishing store in EndBlock
+	var store ssa.Instruction
+	for _, s := range core.Sites(end) {
+		if strings.HasPrefix(core.CalleeName(s.Common), "sync/atomic.Store") && len(s.Common.Args) == 2 && isHeightAddr(s.Common.Args[0]) {
+			p := core.Path(s.Common.Args[1])
+			if strings.HasSuffix(p, "req.Height") || p == "height" {
+				store = s.Instr
+			}
+		}
+	}
+	if store == nil {
+		c.Bad(rule, "EndBlock/publish", end.Pos(), "EndBlock does not store the height of the block it ends into blockchain.height: everything that asks Height() keeps seeing the previous block")
+		return
+	}
+	c.OK(rule, "EndBlock/publish", store.Pos(), "EndBlock stores the request's height into blockchain.height")
+	cg := c.CG()
+	n := 0
+	for _, s := range core.Sites(end) {
+		var callees []*ssa.Function
+		if sc := s.Common.StaticCallee(); sc != nil {
+			callees = append(callees, sc)
+		}
+		reaches := ""
+		for _, cal := range callees {
+			if !c.InRepo(cal) {
+				continue
+			}
+			reach := cg.Reachable([]*ssa.Function{cal}, nil)
+			for fn := range reach {
+				if readers[fn] {
+					reaches = core.PathTo(reach, fn)
+				}
+			}
+		}
+		if reaches == "" {
+			continue
+		}
+		n++
+		key := fmt.Sprintf("EndBlock/%s#%d", methodName(s), n)
+		c.Check(core.Dominates(store, s.Instr), rule, key, s.Pos(), "runs after the block height was published ("+reaches+")",
+			"this call reads blockchain.height ("+reaches+") but EndBlock has not yet stored the height of the block it is ending: the callee works with the previous block's number (stakes of a removed candidate are frozen until one block too early)")
+	}
+	c.Floor(rule, n, 1, "calls in EndBlock that read the published block height")
 }
